@@ -546,6 +546,16 @@ def _code_matrix(case, dm, times, clause_prefix):
     n = len(case["osc"])
     gaxis = np.array(case["gaxis"], dtype=float)
     perm = _time_perm(case, times.size)  # the axis as handed over (descending / acquisition order); rows are put back below
+    if times.size >= 3 and times.max() > times.min():
+        # first a decoy: another time axis of the same length and end points (quadratic spacing) - whatever the code remembers
+        # about an axis must identify it
+        lo_, hi_ = float(times.min()), float(times.max())
+        decoy = lo_ + (hi_ - lo_) * ((times - lo_) / (hi_ - lo_)) ** 2
+        try:
+            with np.errstate(all="ignore"):
+                dm.megacomplex[0].calculate_matrix(dm, gaxis, decoy)
+        except Exception:  # noqa: BLE001
+            pass
     with np.errstate(all="ignore"):
         with expect_ok(f"{clause_prefix}.call"):
             labels, mat = dm.megacomplex[0].calculate_matrix(dm, gaxis, times[perm].copy())
